@@ -88,14 +88,15 @@ Definition proto_eqb (a b : proto_hdr) : bool :=
     [ob_ok]: [Some new_exchange] when it returned [Ok], the decoded header fields
     and payload (meaningful then), the table slots whose window / counter /
     exchange slots differ afterwards, whether any pre-existing session's keys,
-    identities, mode or address changed or a session vanished, and how many
-    sessions were appended. *)
+    identities, mode or address changed or a session vanished, how many
+    sessions were appended, and whether the group counter store differs. *)
 Record observation := mkObs {
   ob_ok : option bool;
   ob_plain : plain_hdr; ob_proto : proto_hdr; ob_payload : list N;
   ob_changed : list nat;
   ob_ident_changed : bool;
-  ob_added : nat }.
+  ob_added : nat;
+  ob_gstore_changed : bool }.
 
 Definition fields_match (ob : observation) (p : plain_hdr) (x : proto_hdr) (payload : list N)
   : bool :=
@@ -111,16 +112,17 @@ Definition mon_decode (W : world) (st : pstate) (from : addr) (wire : list N)
   | AuthNone =>
       (* not authentic for anybody: rejected, and nothing changes *)
       is_none (ob_ok ob) && (length (ob_changed ob) =? 0)%nat && negb (ob_ident_changed ob) &&
-      (ob_added ob =? 0)%nat
+      (ob_added ob =? 0)%nat && negb (ob_gstore_changed ob)
   | AuthSession i p x payload =>
       (* only that session may move; if delivered, exactly the authenticated fields *)
       forallb (fun j => (j =? i)%nat) (ob_changed ob) && negb (ob_ident_changed ob) &&
-      (ob_added ob =? 0)%nat && fields_match ob p x payload
+      (ob_added ob =? 0)%nat && negb (ob_gstore_changed ob) && fields_match ob p x payload
   | AuthNewPlain p x payload =>
       (length (ob_changed ob) =? 0)%nat && negb (ob_ident_changed ob) &&
-      (ob_added ob <=? 1)%nat && fields_match ob p x payload
+      (ob_added ob <=? 1)%nat && negb (ob_gstore_changed ob) && fields_match ob p x payload
   | AuthGroup c p x payload =>
-      (* existing sessions keep their counters/exchanges (eviction may remove one) *)
+      (* existing sessions keep their counters/exchanges (eviction may remove one);
+         the group counter store may record the sender *)
       (length (ob_changed ob) =? 0)%nat && (ob_added ob <=? 1)%nat && fields_match ob p x payload
   end.
 
@@ -199,6 +201,6 @@ Fixpoint observe (before after : list psess) (i : nat) : list nat * bool :=
   end.
 
 Definition mk_observation (ok : option bool) (p : plain_hdr) (x : proto_hdr) (payload : list N)
-    (before after : list psess) : observation :=
+    (before after : list psess) (gstore_changed : bool) : observation :=
   let '(ch, idc) := observe before after 0 in
-  mkObs ok p x payload ch idc (length after - length before).
+  mkObs ok p x payload ch idc (length after - length before) gstore_changed.
